@@ -73,7 +73,7 @@ Proof.
   intros k e b. destruct k as [| |hard|]; cbn [verdict].
   - destruct (worker_fails e b); reflexivity.
   - reflexivity.
-  - destruct (stop_fails b hard); [rewrite gen_stop|]; reflexivity.
+  - destruct (stop_fails b hard e); [rewrite gen_stop|]; reflexivity.
   - destruct (load_ok e); reflexivity.
 Qed.
 
@@ -226,7 +226,7 @@ Proof.
     apply new_task_facts in E1. apply scatter_on_facts in E2. destruct E1 as [N1 C1]. destruct E2 as [F2 [N2 C2]].
     cbn [finals_of flat_map]. fold (finals_of rq o). rewrite (no_finals_finals_of _ _ F2). cbn [length app].
     eapply (Hind h2 ltac:(congruence) _ ltac:(rewrite C2, C1; reflexivity) 0). reflexivity. }
-  destruct v as [| | | | | | |n].
+  destruct v as [|b| | | | | |n].
   - (* VWorker *) specialize (Hsc KWorker tmo_worker).
     destruct (new_task h c KWorker tmo_worker) as [h1 tid]. destruct (scatter_on h1 (next_rq h) tid 0). apply Hsc, H.
   - (* VRejected *) inversion H; subst; clear H. cbn [finals_of flat_map app].
@@ -277,6 +277,28 @@ Proof.
     intros t'. destruct (Nat.eqb (t_id t') tid); [apply apply_arm_rq|reflexivity].
 Qed.
 
+Lemma fail_all_facts : forall rs h w h' os,
+    fail_all h w rs = (h', os) ->
+    no_finals os /\ next_rq h' = next_rq h /\ (forall q, count_rq q (tasks h') = count_rq q (tasks h)).
+Proof.
+  induction rs as [|r rs IH]; intros h w h' os H; cbn [fail_all] in H.
+  - inversion H; subst. split; [intros c q s []|split; auto].
+  - destruct (worker_response h w (Some r) SFailure) as [h1 o1] eqn:E1.
+    destruct (fail_all h1 w rs) as [h2 o2] eqn:E2. inversion H; subst; clear H.
+    apply worker_response_facts in E1. apply IH in E2.
+    destruct E1 as [A1 [B1 C1]]. destruct E2 as [A2 [B2 C2]].
+    split; [apply no_finals_app; assumption|split; [congruence|]]. intros q. rewrite C2, C1. reflexivity.
+Qed.
+
+(** [EWorkerClosed]: the worker is marked stopped, then its requests in flight fail *)
+Definition closed_hub (h : hub) (w : nat) : hub :=
+  mkHub (map (fun ws => if Nat.eqb (fst ws) w then (fst ws, true) else ws) (workers h))
+        (tasks h) (in_flight h) (now h) (next_task h) (next_rq h) (stopping h) (timeout h) (gone h).
+
+Lemma closed_event : forall h w,
+    apply_event h (EWorkerClosed w) = fail_all (closed_hub h w) w (orphans (closed_hub h w) w).
+Proof. reflexivity. Qed.
+
 Lemma apply_event_budget : forall h e h' os rq,
     apply_event h e = (h', os) ->
     length (finals_of rq os) + count_rq rq (tasks h') + fresh_ind rq h' <= count_rq rq (tasks h) + fresh_ind rq h.
@@ -285,7 +307,9 @@ Proof.
   - eapply client_request_budget; eauto.
   - apply worker_response_facts in H. destruct H as [F [N C]].
     rewrite (no_finals_finals_of _ _ F), C. unfold fresh_ind. rewrite N. cbn [length]. lia.
-  - inversion H; subst; clear H. unfold fresh_ind. cbn [finals_of flat_map length tasks next_rq]. lia.
+  - fold (apply_event h (EWorkerClosed w)) in H. rewrite closed_event in H.
+    apply fail_all_facts in H. destruct H as [F [N C]].
+    rewrite (no_finals_finals_of _ _ F), C. unfold fresh_ind. rewrite N. cbn [length closed_hub tasks next_rq]. lia.
   - inversion H; subst; clear H. unfold fresh_ind. cbn [finals_of flat_map length tasks next_rq]. lia.
   - inversion H; subst; clear H. unfold fresh_ind. cbn [finals_of flat_map length tasks next_rq]. lia.
 Qed.
@@ -346,6 +370,9 @@ Qed.
 
 (** ** Well-formedness of reachable hubs *)
 
+(** the task kinds that are created without a deadline *)
+Definition nd (k : kind) : bool := match k with KLoad | KStop false => true | _ => false end.
+
 Record WF (h : hub) : Prop := mkWF {
   wf_tid : forall t, In t (tasks h) -> t_id t < next_task h;
   wf_nodup_id : NoDup (map t_id (tasks h));
@@ -353,7 +380,7 @@ Record WF (h : hub) : Prop := mkWF {
   wf_live : forall r tid, In (r, tid) (in_flight h) ->
                           tid_of r = tid /\ exists t, In t (tasks h) /\ t_id t = tid;
   wf_workers : NoDup (map fst (workers h));
-  wf_load : forall t, In t (tasks h) -> t_kind t = KLoad -> t_deadline t = None;
+  wf_load : forall t, In t (tasks h) -> nd (t_kind t) = true -> t_deadline t = None;
   wf_acc : forall t, In t (tasks h) -> t_ok t + t_err t + open_count (in_flight h) (t_id t) = t_exp t;
 }.
 
@@ -458,7 +485,7 @@ Qed.
 
 (** *** new_task *)
 Lemma new_task_wf : forall h c k t h' tid,
-    WF h -> new_task h c k t = (h', tid) -> (k = KLoad -> t = TNone) ->
+    WF h -> new_task h c k t = (h', tid) -> (nd k = true -> t = TNone) ->
     WF h' /\ tid = next_task h /\ next_task h' = S tid /\ in_flight h' = in_flight h /\
     workers h' = workers h /\ next_rq h' = next_rq h /\ now h' = now h /\ gone h' = gone h /\
     stopping h' = stopping h /\ timeout h' = timeout h /\
@@ -694,7 +721,7 @@ Qed.
 
 (** the part of [client_request] that creates a task and scatters *)
 Lemma spawn_inv : forall es h os c k tm (sc : hub -> nat -> nat -> hub * list out) v,
-    Inv es h os -> (k = KLoad -> tm = TNone) ->
+    Inv es h os -> (nd k = true -> tm = TNone) ->
     (forall h1 tid h2 o,
         WF h1 -> (exists t, In t (tasks h1) /\ t_id t = tid) -> fresh_idx h1 tid 0 ->
         sc h1 (next_rq h) tid = (h2, o) -> Scattered h1 (next_rq h) tid h2 o) ->
@@ -758,12 +785,18 @@ Proof.
     destruct (inv_sent _ _ _ I t Hin w r Hs) as [A|[A|A]]; auto. right. left. apply acked_mono. exact A.
 Qed.
 
+Lemma burn_ids_inv : forall es h os b, Inv es h os -> Inv es (burn_ids h b) os.
+Proof.
+  intros es h os b [W R F S]. destruct W. constructor; [constructor|..]; try assumption.
+  intros t Hin. cbn [burn_ids tasks next_task] in *. specialize (wf_tid0 t Hin). lia.
+Qed.
+
 Lemma client_request_inv : forall es h os c v h' os',
     Inv es h os -> client_request h c v = (h', os') ->
     Inv (es ++ [EClient c v]) h' (os ++ os').
 Proof.
   intros es h os c v h' os' I H. unfold client_request in H.
-  assert (Hone : forall k tm, (k = KLoad -> tm = TNone) ->
+  assert (Hone : forall k tm, (nd k = true -> tm = TNone) ->
             forall h1 tid h2 o, new_task h c k tm = (h1, tid) -> scatter_on h1 (next_rq h) tid 0 = (h2, o) ->
             Inv (es ++ [EClient c v]) (bump_rq h2) (os ++ ONotice c (next_rq h) :: o)).
   { intros k tm Hk h1 tid h2 o E1 E2.
@@ -774,23 +807,23 @@ Proof.
     specialize (Hs Hsc h1 tid h2 o [ONotice c (next_rq h)] [] E1 E2).
     rewrite !app_nil_r in Hs. cbn [app] in Hs. apply Hs.
     intros x Hin. destruct Hin as [<-|[]]. eauto. }
-  destruct v as [| | | | | | |n].
+  destruct v as [|b| | | | | |n].
   - destruct (new_task h c KWorker tmo_worker) as [h1 tid] eqn:E1.
     destruct (scatter_on h1 (next_rq h) tid 0) as [h2 o] eqn:E2. inversion H; subst; clear H.
-    apply (Hone KWorker tmo_worker ltac:(discriminate) _ _ _ _ E1 E2).
-  - inversion H; subst; clear H. apply bump_only_inv; [exact I|]. intros w r q [Hx|[]]. discriminate.
+    apply (Hone KWorker tmo_worker ltac:(first [discriminate | intros _; reflexivity]) _ _ _ _ E1 E2).
+  - inversion H; subst; clear H. apply bump_only_inv; [apply burn_ids_inv; exact I|]. intros w r q [Hx|[]]. discriminate.
   - destruct (new_task h c KQuery tmo_query) as [h1 tid] eqn:E1.
     destruct (scatter_on h1 (next_rq h) tid 0) as [h2 o] eqn:E2. inversion H; subst; clear H.
-    apply (Hone KQuery tmo_query ltac:(discriminate) _ _ _ _ E1 E2).
+    apply (Hone KQuery tmo_query ltac:(first [discriminate | intros _; reflexivity]) _ _ _ _ E1 E2).
   - inversion H; subst; clear H. apply bump_only_inv; [exact I|]. intros w r q [Hx|[]]. discriminate.
   - inversion H; subst; clear H. apply bump_only_inv; [exact I|].
     intros w r q Hin. try rewrite gen_unserved in Hin. destruct Hin as [Hx|[]]. discriminate.
   - destruct (new_task h c (KStop true) tmo_hardstop) as [h1 tid] eqn:E1.
     destruct (scatter_on h1 (next_rq h) tid 0) as [h2 o] eqn:E2. inversion H; subst; clear H.
-    apply (Hone (KStop true) tmo_hardstop ltac:(discriminate) _ _ _ _ E1 E2).
+    apply (Hone (KStop true) tmo_hardstop ltac:(first [discriminate | intros _; reflexivity]) _ _ _ _ E1 E2).
   - destruct (new_task h c (KStop false) tmo_softstop) as [h1 tid] eqn:E1.
     destruct (scatter_on h1 (next_rq h) tid 0) as [h2 o] eqn:E2. inversion H; subst; clear H.
-    apply (Hone (KStop false) tmo_softstop ltac:(discriminate) _ _ _ _ E1 E2).
+    apply (Hone (KStop false) tmo_softstop ltac:(first [discriminate | intros _; reflexivity]) _ _ _ _ E1 E2).
   - destruct (new_task h c KLoad tmo_load) as [h1 tid] eqn:E1.
     destruct (scatter_many h1 (next_rq h) tid (seq 1 n)) as [h2 o] eqn:E2. inversion H; subst; clear H.
     pose proof (spawn_inv es h os c KLoad tmo_load (fun h1 rq tid => scatter_many h1 rq tid (seq 1 n)) (VLoad n) I
@@ -848,17 +881,18 @@ Proof.
 Qed.
 
 (** the state change of a counted response, in one place *)
-Lemma response_inv : forall es h os w r st tid t0 (retire : bool) a,
+Lemma response_inv : forall es es' h os (w : nat) r st tid t0 (retire : bool) a,
     Inv es h os -> In (r, tid) (in_flight h) -> In t0 (tasks h) -> t_id t0 = tid ->
     a = on_message_arm st ->
     retire = (match a with IncOk | IncErr => true | _ => false end) ->
+    (forall r0, acked es r0 -> acked es' r0) -> (a = IncOk -> acked es' r) ->
     forall os', (forall w' r' q, ~ In (OSend w' r' q) os') ->
-    Inv (es ++ [EResp w (Some r) st])
+    Inv es'
         (set_in_flight (set_tasks h (map (fun t' => if Nat.eqb (t_id t') tid then apply_arm a t' else t') (tasks h)))
                        (if retire then filter (fun e => negb (rid_eqb (fst e) r)) (in_flight h) else in_flight h))
         (os ++ os').
 Proof.
-  intros es h os w r st tid t0 retire a I Hr Ht0 Hid Ha Hret os' Hos'.
+  intros es es' h os w r st tid t0 retire a I Hr Ht0 Hid Ha Hret Hmono Hack os' Hos'.
   change (fun t' => if Nat.eqb (t_id t') tid then apply_arm a t' else t') with (upd a tid).
   pose proof (inv_wf _ _ _ I) as W.
   set (f' := if retire then filter (fun e => negb (rid_eqb (fst e) r)) (in_flight h) else in_flight h).
@@ -897,14 +931,13 @@ Proof.
       * apply rid_eqb_eq in Er. subst r'.
         pose proof (key_unique _ _ _ _ (wf_keys _ W) A Hr) as Et. rewrite Et, Nat.eqb_refl.
         destruct a eqn:Ea; subst retire; unfold f'.
-        -- right. left. exists w. apply in_or_app. right. left.
-           destruct st; cbn in Ha; try discriminate. reflexivity.
+        -- right. left. apply Hack. reflexivity.
         -- right. right. lia.
         -- left. rewrite <- Et. exact A.
         -- left. rewrite <- Et. exact A.
       * left. unfold f'. destruct retire; [|exact A]. apply filter_In. split; [exact A|].
         cbn [fst]. rewrite Er. reflexivity.
-    + right. left. apply acked_mono. exact A.
+    + right. left. apply Hmono. exact A.
     + right. right. lia.
 Qed.
 
@@ -920,6 +953,9 @@ Proof.
   apply lookup_rid_in in El. destruct (find_task_in _ _ _ Ef) as [Ht0 Hid].
   eapply response_inv; eauto.
   - apply gen_retire.
+  - intros r0. apply acked_mono.
+  - intros Ha. exists w. apply in_or_app. right. left.
+    destruct st; cbn in Ha; try discriminate. reflexivity.
   - intros w' r' q Hin. destruct (on_message_arm st); cbn in Hin; try contradiction.
     destruct Hin as [Hx|[]]. discriminate.
 Qed.
@@ -1023,16 +1059,49 @@ Proof.
   - intros t Hin w r Hs. apply E in Hs. eapply S; eauto.
 Qed.
 
+Lemma failure_response_inv : forall es h os w r st h' os',
+    on_message_arm st <> IncOk ->
+    Inv es h os -> worker_response h w (Some r) st = (h', os') -> Inv es h' (os ++ os').
+Proof.
+  intros es h os w r st h' os' Hst I H. unfold worker_response in H.
+  destruct (lookup_rid r (in_flight h)) as [tid|] eqn:El; [|inversion H; subst; rewrite app_nil_r; exact I].
+  destruct (find_task tid (tasks h)) as [t0|] eqn:Ef; [|inversion H; subst; rewrite app_nil_r; exact I].
+  inversion H; subst h' os'; clear H.
+  apply lookup_rid_in in El. destruct (find_task_in _ _ _ Ef) as [Ht0 Hid].
+  eapply (response_inv es es); eauto.
+  - apply gen_retire.
+  - intros Ha. congruence.
+  - intros w' r' q Hin. destruct (on_message_arm st); cbn in Hin; try contradiction.
+    destruct Hin as [Hx|[]]. discriminate.
+Qed.
+
+Lemma fail_all_inv : forall rs es h os w h' os',
+    Inv es h os -> fail_all h w rs = (h', os') -> Inv es h' (os ++ os').
+Proof.
+  induction rs as [|r rs IH]; intros es h os w h' os' I H; cbn [fail_all] in H.
+  - inversion H; subst. rewrite app_nil_r. exact I.
+  - destruct (worker_response h w (Some r) SFailure) as [h1 o1] eqn:E1.
+    destruct (fail_all h1 w rs) as [h2 o2] eqn:E2. inversion H; subst; clear H.
+    rewrite app_assoc. eapply IH; [|exact E2]. eapply failure_response_inv; [|exact I|exact E1].
+    destruct gen_arms as [_ [Hf _]]. rewrite Hf. discriminate.
+Qed.
+
+Lemma closed_hub_inv : forall es h os w, Inv es h os -> Inv (es ++ [EWorkerClosed w]) (closed_hub h w) os.
+Proof.
+  intros es h os w I. apply (inv_es_mono _ _ _ (EWorkerClosed w)) in I. rewrite app_nil_r in I.
+  destruct I as [W R F S]. destruct W. constructor; [constructor|..]; try assumption.
+  cbn [closed_hub workers]. rewrite map_map. erewrite map_ext; [eassumption|].
+  intros [a b]. cbn [fst]. destruct (Nat.eqb a w); reflexivity.
+Qed.
+
 Lemma apply_event_inv : forall es h os e h' os',
     Inv es h os -> apply_event h e = (h', os') -> Inv (es ++ [e]) h' (os ++ os').
 Proof.
   intros es h os e h' os' I H. destruct e as [c v|w r st|w|c|dt]; cbn [apply_event] in H.
   - eapply client_request_inv; eauto.
   - eapply worker_response_inv; eauto.
-  - inversion H; subst; clear H. apply (inv_es_mono _ _ _ (EWorkerClosed w)) in I.
-    destruct I as [W R F S]. destruct W. constructor; [constructor|..]; try assumption.
-    cbn [workers]. rewrite map_map. erewrite map_ext; [eassumption|].
-    intros [a b]. cbn [fst]. destruct (Nat.eqb a w); reflexivity.
+  - fold (apply_event h (EWorkerClosed w)) in H. rewrite closed_event in H.
+    eapply fail_all_inv; [apply closed_hub_inv; exact I|exact H].
   - inversion H; subst; clear H. apply (inv_es_mono _ _ _ (EClientClosed c)) in I.
     destruct I as [W R F S]. destruct W. constructor; [constructor|..]; assumption.
   - inversion H; subst; clear H. apply (inv_es_mono _ _ _ (ETick dt)) in I.
@@ -1103,10 +1172,29 @@ Proof.
     cbn [snd] in *. apply in_app_or in Hin. destruct Hin; [eapply H1|eapply H2]; eauto.
 Qed.
 
+Lemma worker_response_no_done : forall h w r st, no_done (snd (worker_response h w r st)).
+Proof.
+  intros h w r st t raw Hin. unfold worker_response in Hin. destruct r as [r|]; [|destruct Hin].
+  destruct (lookup_rid r (in_flight h)); [|destruct Hin].
+  destruct (find_task n (tasks h)); [|destruct Hin]. cbn [snd] in Hin.
+  destruct (on_message_arm st); cbn in Hin; try contradiction. destruct Hin as [Hx|[]]. discriminate.
+Qed.
+
+Lemma fail_all_no_done : forall rs h w, no_done (snd (fail_all h w rs)).
+Proof.
+  induction rs as [|r rs IH]; intros h w t raw Hin; cbn [fail_all] in Hin; [destruct Hin|].
+  pose proof (worker_response_no_done h w (Some r) SFailure) as H1.
+  destruct (worker_response h w (Some r) SFailure) as [h1 o1]. pose proof (IH h1 w) as H2.
+  destruct (fail_all h1 w rs) as [h2 o2]. cbn [snd] in *. apply in_app_or in Hin.
+  destruct Hin; [eapply H1|eapply H2]; eauto.
+Qed.
+
 Lemma apply_event_no_done : forall h e, no_done (snd (apply_event h e)).
 Proof.
-  intros h e t raw Hin. destruct e as [c v|w r st|w|c|dt]; cbn [apply_event] in Hin; try (cbn in Hin; contradiction).
-  - unfold client_request in Hin. destruct v as [| | | | | | |n].
+  intros h e t raw Hin. destruct e as [c v|w r st|w|c|dt];
+    [| |rewrite closed_event in Hin; eapply fail_all_no_done; eauto| |];
+    cbn [apply_event] in Hin; try (cbn in Hin; contradiction).
+  - unfold client_request in Hin. destruct v as [|b| | | | | |n].
     all: try (cbn in Hin; destruct Hin as [Hx|[]]; discriminate).
     all: try (match type of Hin with context [new_task ?a ?b ?c ?d] => destruct (new_task a b c d) as [h1 tid] end;
               pose proof (scatter_on_no_done h1 (next_rq h) tid 0) as Hn;
@@ -1152,10 +1240,15 @@ Proof.
 Qed.
 
 (** ** ok_is_sound, at the task that finished *)
+(** the task kinds whose OK claims that the request was applied by every worker
+    (worker verbs, load-state, stops); query / status / metrics tasks answer OK
+    with whatever was gathered *)
+Definition claims_application (k : kind) : bool := match k with KQuery => false | _ => true end.
+
 Lemma ok_sound_done : forall nw tm es h os e h' os' t raw,
     run (init nw tm) es = (h, os) -> step h e = (h', os') ->
     In (ODone t raw) os' ->
-    t_kind t = KWorker \/ t_kind t = KLoad ->
+    claims_application (t_kind t) = true ->
     In SOk (verdict (t_kind t) (t_err t) (on_finish_flag raw)) ->
     raw = false /\ t_err t = 0 /\ t_exp t <= t_ok t /\
     forall w r, In (OSend w r (t_rq t)) (os ++ os') -> acked (es ++ [e]) r.
@@ -1167,15 +1260,28 @@ Proof.
   pose proof (apply_event_inv _ _ _ _ _ _ I E1) as I1. pose proof (inv_wf _ _ _ I1) as W1.
   assert (Hcore : raw = false /\ t_err t = 0 /\ t_exp t <= t_ok t).
   { unfold finishes in Hfin. destruct gen_flags as [F1 [F2 F3]]. rewrite F1, F2, F3, gen_has_finished in Hfin.
-    destruct Hkind as [Hk|Hk]; rewrite Hk in Hok; cbn [verdict] in Hok.
+    destruct (t_kind t) as [| |hard|] eqn:Hk; try discriminate Hkind; cbn [verdict] in Hok.
     - rewrite gen_worker_fails, gen_flag in Hok.
       destruct (Nat.ltb 0 (t_err t)) eqn:El; [cbn in Hok; destruct Hok as [Hx|[]]; discriminate|].
       destruct raw; [cbn in Hok; destruct Hok as [Hx|[]]; discriminate|].
       apply Nat.ltb_ge in El. destruct (Nat.leb (t_exp t) (t_ok t + t_err t)) eqn:Ele.
       + apply Nat.leb_le in Ele. repeat split; lia.
       + destruct (t_deadline t); [destruct (expired n (now h1)); discriminate|discriminate].
+    - (* stop tasks: a hard stop has a deadline, a soft stop has none *)
+      rewrite gen_stop, gen_flag in Hok. unfold stop_fails in Hok.
+      destruct (Nat.ltb 0 (t_err t)) eqn:El; [rewrite orb_true_r in Hok; destruct Hok as [Hx|[]]; discriminate|].
+      apply Nat.ltb_ge in El. rewrite orb_false_r in Hok.
+      destruct (Nat.leb (t_exp t) (t_ok t + t_err t)) eqn:Ele.
+      + apply Nat.leb_le in Ele. inversion Hfin. repeat split; lia.
+      + destruct hard.
+        * destruct raw; [cbn in Hok; destruct Hok as [Hx|[]]; discriminate|].
+          destruct (t_deadline t); [destruct (expired n (now h1)); discriminate|discriminate].
+        * assert (Hnd : nd (t_kind t) = true) by (rewrite Hk; reflexivity).
+          rewrite (wf_load _ W1 t Hin Hnd) in Hfin. discriminate.
     - rewrite gen_load_ok in Hok. destruct (Nat.eqb (t_err t) 0) eqn:Ee; [|cbn in Hok; destruct Hok as [Hx|[]]; discriminate].
-      apply Nat.eqb_eq in Ee. rewrite (wf_load _ W1 t Hin Hk) in Hfin.
+      apply Nat.eqb_eq in Ee.
+      assert (Hnd : nd (t_kind t) = true) by (rewrite Hk; reflexivity).
+      rewrite (wf_load _ W1 t Hin Hnd) in Hfin.
       destruct (Nat.leb (t_exp t) (t_ok t + t_err t)) eqn:Ele; [|discriminate].
       apply Nat.leb_le in Ele. inversion Hfin. repeat split; lia. }
   destruct Hcore as [Hraw [Herr Hexp]]. repeat split; try assumption.
@@ -1207,7 +1313,7 @@ Lemma client_request_final : forall h c v c' rq st,
     In (OFinal c' rq st) (snd (client_request h c v)) ->
     rq = next_rq h /\ c' = c /\ forall w r q, ~ In (OSend w r q) (snd (client_request h c v)).
 Proof.
-  intros h c v c' rq st Hin. unfold client_request in *. destruct v as [| | | | | | |n].
+  intros h c v c' rq st Hin. unfold client_request in *. destruct v as [|b| | | | | |n].
   all: try (cbn in Hin |- *; destruct Hin as [Hx|[]]; inversion Hx; subst;
             repeat split; intros w r q [Hy|[]]; discriminate).
   all: try (match type of Hin with context [new_task ?a ?b ?c ?d] => destruct (new_task a b c d) as [h1 tid] end;
@@ -1240,7 +1346,8 @@ Proof.
       destruct (Hc Hin) as [A [B C]]. split; [exact A|]. intros w r q Hs.
       apply in_send_filter in Hs. apply in_app_or in Hs. destruct Hs as [Hs|Hs]; [eapply C|eapply Hns]; eauto.
     + apply worker_response_facts in E1. destruct E1 as [F _]. exfalso. eapply F; eauto.
-    + inversion E1; subst. destruct Hin.
+    + fold (apply_event h (EWorkerClosed w)) in E1. rewrite closed_event in E1.
+      apply fail_all_facts in E1. destruct E1 as [F _]. exfalso. eapply F; eauto.
     + inversion E1; subst. destruct Hin.
     + inversion E1; subst. destruct Hin.
   - left. destruct (Hsf Hin) as [t [raw [Hd [A [B C]]]]]. exists t, raw. repeat split; try assumption.
@@ -1250,7 +1357,7 @@ Qed.
 Lemma ok_is_sound_lemma : forall nw tm es h os e h' os' c rq,
     run (init nw tm) es = (h, os) -> step h e = (h', os') ->
     In (OFinal c rq SOk) os' ->
-    (forall t raw, In (ODone t raw) os' -> t_rq t = rq -> t_kind t = KWorker \/ t_kind t = KLoad) ->
+    (forall t raw, In (ODone t raw) os' -> t_rq t = rq -> claims_application (t_kind t) = true) ->
     forall w r, In (OSend w r rq) (os ++ os') -> acked (es ++ [e]) r.
 Proof.
   intros nw tm es h os e h' os' c rq Hrun Hstep Hfin Hkinds w r Hs.
@@ -1279,7 +1386,7 @@ Lemma exp_only_same : forall g t, exp_only g -> same_task t (g t).
 Proof. intros g t H. destruct (H t) as [A1 [A2 [A3 [A4 [A5 [A6 A7]]]]]]. repeat split; try congruence; lia. Qed.
 
 Lemma spawn_tasks : forall h c k tm (sc : hub -> nat -> nat -> hub * list out),
-    WF h -> (k = KLoad -> tm = TNone) ->
+    WF h -> (nd k = true -> tm = TNone) ->
     (forall h1 tid h2 o,
         WF h1 -> (exists t, In t (tasks h1) /\ t_id t = tid) -> fresh_idx h1 tid 0 ->
         sc h1 (next_rq h) tid = (h2, o) -> Scattered h1 (next_rq h) tid h2 o) ->
@@ -1299,6 +1406,35 @@ Proof.
   rewrite Eg2. apply in_map. rewrite Ets. apply in_or_app. left. exact Hin.
 Qed.
 
+Lemma worker_response_tasks : forall h w r st h1 o1,
+    worker_response h w r st = (h1, o1) ->
+    now h1 = now h /\ forall t, In t (tasks h) -> exists t1, In t1 (tasks h1) /\ same_task t t1.
+Proof.
+  intros h w r st h1 o1 H. unfold worker_response in H.
+  assert (Hid : now h = now h /\ forall t, In t (tasks h) -> exists t1, In t1 (tasks h) /\ same_task t t1).
+  { split; [reflexivity|]. intros t Hin. exists t. split; [exact Hin|apply same_task_refl]. }
+  destruct r as [r|]; [|inversion H; subst; exact Hid].
+  destruct (lookup_rid r (in_flight h)) as [tid|]; [|inversion H; subst; exact Hid].
+  destruct (find_task tid (tasks h)) as [t0|]; [|inversion H; subst; exact Hid].
+  inversion H; subst; clear H. split; [reflexivity|]. intros t Hin.
+  exists (upd (on_message_arm st) tid t). split; [apply (in_map (upd (on_message_arm st) tid)); exact Hin|].
+  destruct (upd_fields (on_message_arm st) tid t) as [A1 [A2 [A3 [A4 [A5 [A6 [A7 A8]]]]]]].
+  repeat split; try assumption; lia.
+Qed.
+
+Lemma fail_all_tasks : forall rs h w h1 o1,
+    fail_all h w rs = (h1, o1) ->
+    now h1 = now h /\ forall t, In t (tasks h) -> exists t1, In t1 (tasks h1) /\ same_task t t1.
+Proof.
+  induction rs as [|r rs IH]; intros h w h1 o1 H; cbn [fail_all] in H.
+  - inversion H; subst. split; [reflexivity|]. intros t Hin. exists t. split; [exact Hin|apply same_task_refl].
+  - destruct (worker_response h w (Some r) SFailure) as [ha oa] eqn:E1.
+    destruct (fail_all ha w rs) as [hb ob] eqn:E2. inversion H; subst; clear H.
+    destruct (worker_response_tasks _ _ _ _ _ _ E1) as [N1 T1]. destruct (IH _ _ _ _ E2) as [N2 T2].
+    split; [congruence|]. intros t Hin. destruct (T1 t Hin) as [t1 [Hin1 S1]]. destruct (T2 t1 Hin1) as [t2 [Hin2 S2]].
+    exists t2. split; [exact Hin2|eapply same_task_trans; eauto].
+Qed.
+
 Lemma apply_event_tasks : forall h e h1 o1,
     WF h -> apply_event h e = (h1, o1) ->
     now h1 = (now h + match e with ETick dt => dt | _ => 0 end)%N /\
@@ -1311,12 +1447,12 @@ Proof.
     assert (Hsc : forall h1 tid h2 o, WF h1 -> (exists t, In t (tasks h1) /\ t_id t = tid) -> fresh_idx h1 tid 0 ->
                    scatter_on h1 (next_rq h) tid 0 = (h2, o) -> Scattered h1 (next_rq h) tid h2 o).
     { intros a b c0 d Wa Ha Fa Ea. apply (scatter_on_scattered _ _ _ _ _ _ Wa Ha Fa Ea). }
-    destruct v as [| | | | | | |n].
+    destruct v as [|b| | | | | |n].
     all: try (inversion H; subst; exact Hid).
     all: try (match type of H with context [new_task ?a ?b ?k ?d] =>
                 destruct (new_task a b k d) as [h1' tid] eqn:E1;
                 destruct (scatter_on h1' (next_rq h) tid 0) as [h2 o] eqn:E2; inversion H; subst; clear H;
-                apply (spawn_tasks h c k d (fun h1 rq tid => scatter_on h1 rq tid 0) W ltac:(discriminate) Hsc _ _ _ _ E1 E2)
+                apply (spawn_tasks h c k d (fun h1 rq tid => scatter_on h1 rq tid 0) W ltac:(first [discriminate | intros _; reflexivity]) Hsc _ _ _ _ E1 E2)
               end).
     destruct (new_task h c KLoad tmo_load) as [h1' tid] eqn:E1.
     destruct (scatter_many h1' (next_rq h) tid (seq 1 n)) as [h2 o] eqn:E2. inversion H; subst; clear H.
@@ -1327,18 +1463,9 @@ Proof.
       - intros r x Hin Hr. specialize (Fa r x Hin Hr). lia. }
     apply (spawn_tasks h c KLoad tmo_load (fun h1 rq tid => scatter_many h1 rq tid (seq 1 n)) W
                        (fun _ => proj2 (proj2 (proj2 (proj2 gen_tmo)))) Hsc2 _ _ _ _ E1 E2).
-  - rewrite N.add_0_r. unfold worker_response in H.
-    assert (Hid : now h = now h /\ forall t, In t (tasks h) -> exists t1, In t1 (tasks h) /\ same_task t t1).
-    { split; [reflexivity|]. intros t Hin. exists t. split; [exact Hin|apply same_task_refl]. }
-    destruct r as [r|]; [|inversion H; subst; exact Hid].
-    destruct (lookup_rid r (in_flight h)) as [tid|]; [|inversion H; subst; exact Hid].
-    destruct (find_task tid (tasks h)) as [t0|]; [|inversion H; subst; exact Hid].
-    inversion H; subst; clear H. split; [reflexivity|]. intros t Hin.
-    exists (upd (on_message_arm st) tid t). split; [apply (in_map (upd (on_message_arm st) tid)); exact Hin|].
-    destruct (upd_fields (on_message_arm st) tid t) as [A1 [A2 [A3 [A4 [A5 [A6 [A7 A8]]]]]]].
-    repeat split; try assumption; lia.
-  - inversion H; subst; clear H. rewrite N.add_0_r. split; [reflexivity|].
-    intros t Hin. exists t. split; [exact Hin|apply same_task_refl].
+  - rewrite N.add_0_r. apply (worker_response_tasks _ _ _ _ _ _ H).
+  - rewrite N.add_0_r. fold (apply_event h (EWorkerClosed w)) in H. rewrite closed_event in H.
+    destruct (fail_all_tasks _ _ _ _ _ H) as [N T]. split; [exact N|exact T].
   - inversion H; subst; clear H. rewrite N.add_0_r. split; [reflexivity|].
     intros t Hin. exists t. split; [exact Hin|apply same_task_refl].
   - inversion H; subst; clear H. split; [reflexivity|].
@@ -1470,21 +1597,45 @@ Proof.
 Qed.
 
 
-(** ** witness of the open finding: a task without deadline waiting for a gone worker *)
-Definition hung (x : N) : hub :=
-  mkHub [(0, true)] [mkTask 0 0 0 KLoad 0 0 1 None] [((0, 0, 1), 0)] x 1 1 false 1000%N [].
-
-Lemma hung_step : forall x, step (hung x) (ETick 5000) = (hung (x + 5000)%N, []).
-Proof. intros x. reflexivity. Qed.
-
-Lemma hung_run : forall k x, snd (run (hung x) (repeat (ETick 5000) k)) = [].
+(** ** a closed worker leaves nothing in flight *)
+Lemma failure_response_in_flight : forall es h os w r0 h1 o1,
+    Inv es h os -> worker_response h w (Some r0) SFailure = (h1, o1) ->
+    forall r tid, In (r, tid) (in_flight h1) -> In (r, tid) (in_flight h) /\ r <> r0.
 Proof.
-  induction k as [|k IH]; intros x; cbn [repeat run]; [reflexivity|].
-  rewrite hung_step. specialize (IH (x + 5000)%N).
-  destruct (run (hung (x + 5000)%N) (repeat (ETick 5000) k)) as [h2 o2]. cbn [snd] in *. subst o2. reflexivity.
+  intros es h os w r0 h1 o1 I H r tid Hin. unfold worker_response in H.
+  destruct (lookup_rid r0 (in_flight h)) as [tid0|] eqn:El.
+  - pose proof (lookup_rid_in _ _ _ El) as Hl.
+    destruct (wf_live _ (inv_wf _ _ _ I) r0 tid0 Hl) as [_ [t0 [Ht0 Hid0]]].
+    destruct (find_task tid0 (tasks h)) as [t1|] eqn:Ef.
+    + inversion H; subst h1 o1; clear H. cbn [in_flight set_in_flight set_tasks] in Hin.
+      apply filter_In in Hin. destruct Hin as [Hin Hne]. split; [exact Hin|].
+      cbn [fst] in Hne. apply negb_true_iff in Hne. apply rid_eqb_neq in Hne. exact Hne.
+    + exfalso. apply (find_task_none _ _ Ef t0 Ht0 Hid0).
+  - inversion H; subst h1 o1. split; [exact Hin|]. intros ->. apply (lookup_rid_none _ _ El tid Hin).
 Qed.
 
-Lemma hung_reached :
-  run (init 1 1000) [EClient 0 (VLoad 1); EWorkerClosed 0] =
-  (hung 0, [ONotice 0 0; OSend 0 (0, 0, 1) 0; ONotice 0 0]).
-Proof. vm_compute. reflexivity. Qed.
+Lemma fail_all_removes : forall rs es h os w h' o,
+    Inv es h os -> fail_all h w rs = (h', o) ->
+    forall r tid, In (r, tid) (in_flight h') -> In (r, tid) (in_flight h) /\ ~ In r rs.
+Proof.
+  induction rs as [|r0 rs IH]; intros es h os w h' o I H r tid Hin; cbn [fail_all] in H.
+  - inversion H; subst. split; [exact Hin|intros []].
+  - destruct (worker_response h w (Some r0) SFailure) as [h1 o1] eqn:E1.
+    destruct (fail_all h1 w rs) as [h2 o2] eqn:E2. inversion H; subst; clear H.
+    assert (I1 : Inv es h1 (os ++ o1)).
+    { eapply failure_response_inv; [|exact I|exact E1]. destruct gen_arms as [_ [Hf _]]. rewrite Hf. discriminate. }
+    destruct (IH _ _ _ _ _ _ I1 E2 r tid Hin) as [Hin1 Hnot].
+    destruct (failure_response_in_flight _ _ _ _ _ _ _ I E1 r tid Hin1) as [Hin0 Hne].
+    split; [exact Hin0|]. intros [Hx|Hx]; [congruence|contradiction].
+Qed.
+
+Lemma no_orphans_after_close_lemma : forall nw tm es h os w h1 o1,
+    run (init nw tm) es = (h, os) -> apply_event h (EWorkerClosed w) = (h1, o1) ->
+    forall r tid, In (r, tid) (in_flight h1) -> fst (fst r) <> w.
+Proof.
+  intros nw tm es h os w h1 o1 Hr H r tid Hin Hw. rewrite closed_event in H.
+  pose proof (closed_hub_inv _ _ _ w (reach_inv _ _ _ _ _ Hr)) as I.
+  destruct (fail_all_removes _ _ _ _ _ _ _ I H r tid Hin) as [Hin0 Hnot].
+  apply Hnot. unfold orphans. apply in_map_iff. exists (r, tid). split; [reflexivity|].
+  apply filter_In. split; [exact Hin0|]. cbn [fst]. apply Nat.eqb_eq. exact Hw.
+Qed.
